@@ -106,16 +106,16 @@ Proof.
 Qed.
 Lemma grant_nblocked s i : nblocked (grant s i) <= nblocked s.
 Proof.
-  unfold grant, nblocked. destruct (nth_error _ i) as [c|] eqn:E; [|lia]. cbn [ws_callers with_callers].
-  rewrite (set_caller_nblocked _ _ _ c E); [|reflexivity]. destruct (blocked c); lia.
+  unfold grant, nblocked. destruct (nth_error _ i) as [c|] eqn:E; [|lia]. destruct (blocked c) eqn:B; [|lia]. cbn [ws_callers with_callers].
+  rewrite (set_caller_nblocked _ _ _ c E); [|reflexivity]. rewrite B; lia.
 Qed.
 Lemma refuse_nblocked s i : nblocked (refuse s i) <= nblocked s.
 Proof.
-  unfold refuse, nblocked. destruct (nth_error _ i) as [c|] eqn:E; [|lia]. cbn [ws_callers with_callers].
-  rewrite (set_caller_nblocked _ _ _ c E); [|reflexivity]. destruct (blocked c); lia.
+  unfold refuse, nblocked. destruct (nth_error _ i) as [c|] eqn:E; [|lia]. destruct (blocked c) eqn:B; [|lia]. cbn [ws_callers with_callers].
+  rewrite (set_caller_nblocked _ _ _ c E); [|reflexivity]. rewrite B; lia.
 Qed.
-Lemma grant_cfg s i : ws_cfg (grant s i) = ws_cfg s. Proof. unfold grant. destruct (nth_error _ _); reflexivity. Qed.
-Lemma refuse_cfg s i : ws_cfg (refuse s i) = ws_cfg s. Proof. unfold refuse. destruct (nth_error _ _); reflexivity. Qed.
+Lemma grant_cfg s i : ws_cfg (grant s i) = ws_cfg s. Proof. unfold grant. destruct (nth_error _ _) as [c|]; [destruct (blocked c)|]; reflexivity. Qed.
+Lemma refuse_cfg s i : ws_cfg (refuse s i) = ws_cfg s. Proof. unfold refuse. destruct (nth_error _ _) as [c|]; [destruct (blocked c)|]; reflexivity. Qed.
 
 (* an arrival waits only when fewer than maxBacklog callers are already blocked; otherwise it is refused in the same instant *)
 Theorem arrive_bound s cancelled : w_kind (ws_cfg s) = KQueue -> 0 <= w_maxb (ws_cfg s) -> nblocked s <= w_maxb (ws_cfg s) ->
@@ -127,7 +127,7 @@ Proof.
   - split; [|split; [rewrite grant_cfg; reflexivity|discriminate]].
     set (c0 := mk_caller 0 (ws_now s) 0 cancelled).
     assert (E: nth_error (ws_callers s ++ [c0]) (length (ws_callers s)) = Some c0) by (rewrite nth_error_app2, Nat.sub_diag by lia; reflexivity).
-    unfold grant. cbn [ws_callers with_callers]. rewrite E. unfold nblocked. cbn [ws_callers with_callers].
+    unfold grant. cbn [ws_callers with_callers]. rewrite E. change (blocked c0) with true. cbv iota. unfold nblocked. cbn [ws_callers with_callers].
     rewrite (set_caller_nblocked _ _ _ c0 E) by reflexivity. rewrite nblocked_app. cbn. unfold nblocked in H. lia.
   - destruct (Z.leb_spec (w_maxb (ws_cfg s)) (nblocked s)) as [Hf|Hf].
     + split; [|split; [reflexivity|]].
@@ -141,9 +141,9 @@ Qed.
 (* ---------- C19 / C01 at the wrapper level: tokens held never exceed the limit ---------- *)
 Definition within (s : wstate) : Prop := ws_busy s <= ws_limit s.
 Lemma grant_busy s i : ws_busy (grant s i) <= ws_busy s + 1 /\ ws_limit (grant s i) = ws_limit s.
-Proof. unfold grant. destruct (nth_error _ _); cbn; split; lia. Qed.
+Proof. unfold grant. destruct (nth_error _ _) as [c|]; [destruct (blocked c)|]; cbn; split; lia. Qed.
 Lemma refuse_busy s i : ws_busy (refuse s i) = ws_busy s /\ ws_limit (refuse s i) = ws_limit s.
-Proof. unfold refuse. destruct (nth_error _ _); cbn; split; reflexivity. Qed.
+Proof. unfold refuse. destruct (nth_error _ _) as [c|]; [destruct (blocked c)|]; cbn; split; reflexivity. Qed.
 Lemma grant_within s i : within s -> has_room s = true -> within (grant s i).
 Proof. unfold within, has_room. intros W R. apply Z.ltb_lt in R. destruct (grant_busy s i) as [A B]. rewrite B. lia. Qed.
 Lemma attempt_all_within ids : forall s, within s -> within (attempt_all s ids).
@@ -243,19 +243,23 @@ Proof.
   f_equal. apply IH.
 Qed.
 
+Definition refused_at (now : Z) (c : caller) : caller := if blocked c then mk_caller 2 now 0 (c_cancel c) else c.
+Lemma refused_idem now c : refused_at now (refused_at now c) = refused_at now c.
+Proof. unfold refused_at. destruct (blocked c) eqn:B; [reflexivity|rewrite B; reflexivity]. Qed.
+
 Lemma refuse_nth s i j : nth_error (ws_callers (refuse s i)) j =
-  match nth_error (ws_callers s) i with
-  | Some c => if Nat.eqb i j then Some (mk_caller 2 (ws_now s) 0 (c_cancel c)) else nth_error (ws_callers s) j
-  | None => nth_error (ws_callers s) j
-  end.
+  if Nat.eqb i j then option_map (refused_at (ws_now s)) (nth_error (ws_callers s) j) else nth_error (ws_callers s) j.
 Proof.
-  unfold refuse. destruct (nth_error (ws_callers s) i) as [c|] eqn:E; [|reflexivity]. cbn [ws_callers with_callers].
-  rewrite set_caller_nth. assert (L: Nat.ltb i (length (ws_callers s)) = true).
-  { apply Nat.ltb_lt. apply nth_error_Some. congruence. }
-  rewrite L, andb_true_r. reflexivity.
+  unfold refuse. destruct (nth_error (ws_callers s) i) as [c|] eqn:E.
+  - destruct (blocked c) eqn:B.
+    + cbn [ws_callers with_callers]. rewrite set_caller_nth. assert (L: Nat.ltb i (length (ws_callers s)) = true).
+      { apply Nat.ltb_lt. apply nth_error_Some. congruence. }
+      rewrite L, andb_true_r. destruct (Nat.eqb_spec i j); [|reflexivity]. subst j. rewrite E. cbn. unfold refused_at. rewrite B. reflexivity.
+    + destruct (Nat.eqb_spec i j); [|reflexivity]. subst j. rewrite E. cbn. unfold refused_at. rewrite B. reflexivity.
+  - destruct (Nat.eqb_spec i j); [|reflexivity]. subst j. rewrite E. reflexivity.
 Qed.
 Lemma refuse_now s i : ws_now (refuse s i) = ws_now s /\ ws_busy (refuse s i) = ws_busy s.
-Proof. unfold refuse. destruct (nth_error _ _); split; reflexivity. Qed.
+Proof. unfold refuse. destruct (nth_error _ _) as [c|]; [destruct (blocked c)|]; split; reflexivity. Qed.
 
 Lemma due_ids_in l : forall k j t, In j (due_ids l k t) <-> (k <= j)%nat /\ exists c, nth_error l (j - k) = Some c /\ blocked c = true /\ c_due c = t.
 Proof.
@@ -275,20 +279,16 @@ Proof.
         -- split; [lia|]. exists c'. replace (j - k)%nat with (S (j - S k)) in Hc by lia. auto.
 Qed.
 
-(* refusing a set of callers: exactly those change, to "refused now" *)
-Lemma fold_refuse_nth ids : forall s j, (forall i, In i ids -> nth_error (ws_callers s) i <> None) ->
+(* refusing a set of callers: exactly the blocked ones among them change, to "refused now" *)
+Lemma fold_refuse_nth ids : forall s j,
   nth_error (ws_callers (fold_left refuse ids s)) j =
-  if existsb (Nat.eqb j) ids then option_map (fun c => mk_caller 2 (ws_now s) 0 (c_cancel c)) (nth_error (ws_callers s) j)
-  else nth_error (ws_callers s) j.
+  if existsb (Nat.eqb j) ids then option_map (refused_at (ws_now s)) (nth_error (ws_callers s) j) else nth_error (ws_callers s) j.
 Proof.
-  induction ids as [|i r IH]; intros s j H; cbn [fold_left existsb]; [reflexivity|].
-  rewrite IH.
-  2:{ intros k Hk. rewrite refuse_nth. destruct (nth_error (ws_callers s) i); [|apply H; now right].
-      destruct (Nat.eqb i k); [discriminate|apply H; now right]. }
-  rewrite (proj1 (refuse_now s i)), refuse_nth.
-  destruct (nth_error (ws_callers s) i) as [c|] eqn:E; [|exfalso; apply (H i); [now left|exact E]].
+  induction ids as [|i r IH]; intros s j; cbn [fold_left existsb]; [reflexivity|].
+  rewrite IH, (proj1 (refuse_now s i)), refuse_nth.
   destruct (Nat.eqb_spec j i) as [->|Hne].
-  - rewrite Nat.eqb_refl, E. cbn [orb option_map]. destruct (existsb _ r); reflexivity.
+  - rewrite Nat.eqb_refl. cbn [orb]. destruct (existsb _ r); [|reflexivity].
+    destruct (nth_error (ws_callers s) i); cbn; [rewrite refused_idem|]; reflexivity.
   - destruct (Nat.eqb_spec i j); [congruence|]. cbn [orb]. reflexivity.
 Qed.
 
@@ -298,15 +298,13 @@ Theorem fire_queue s t pref i c : w_kind (ws_cfg s) = KQueue -> nth_error (ws_ca
   ws_busy (fire s t pref) = ws_busy s.
 Proof.
   intros K H. unfold fire. rewrite K. set (s0 := with_callers s (ws_busy s) t (ws_callers s)).
-  assert (Hids: forall k, In k (due_ids (ws_callers s0) 0 t) -> nth_error (ws_callers s0) k <> None).
-  { intros k Hk. apply due_ids_in in Hk. destruct Hk as (_ & c' & Hc & _). rewrite Nat.sub_0_r in Hc. cbn in *. congruence. }
   split.
-  - rewrite (fold_refuse_nth _ s0 i Hids). cbn [ws_callers with_callers s0 ws_now]. rewrite H.
+  - rewrite (fold_refuse_nth _ s0 i). cbn [ws_callers with_callers s0 ws_now]. rewrite H.
     destruct (blocked c && (c_due c =? t)) eqn:B.
     + assert (In i (due_ids (ws_callers s) 0 t)).
       { apply due_ids_in. split; [lia|]. exists c. rewrite Nat.sub_0_r. apply andb_true_iff in B. destruct B as [B1 B2]. apply Z.eqb_eq in B2. auto. }
       assert (E: existsb (Nat.eqb i) (due_ids (ws_callers s) 0 t) = true) by (apply existsb_exists; exists i; split; [assumption|apply Nat.eqb_refl]).
-      rewrite E. reflexivity.
+      rewrite E. cbn. unfold refused_at. apply andb_true_iff in B. destruct B as [B1 _]. rewrite B1. reflexivity.
     + assert (E: existsb (Nat.eqb i) (due_ids (ws_callers s) 0 t) = false).
       { apply Bool.not_true_is_false. intros E. apply existsb_exists in E. destruct E as (k & Hk & Ek). apply Nat.eqb_eq in Ek. subst k.
         apply due_ids_in in Hk. destruct Hk as (_ & c' & Hc & B1 & B2). rewrite Nat.sub_0_r, H in Hc. inversion Hc; subst.
@@ -316,3 +314,98 @@ Proof.
     { induction ids as [|k r IH]; intros st; cbn; [reflexivity|]. rewrite IH. apply refuse_now. }
     rewrite G. reflexivity.
 Qed.
+
+(* ---------- C02 at the wrapper level: the delegate's busy count equals the number of callers holding a token ---------- *)
+Definition holding (c : caller) : bool := c_st c =? 1.
+Definition holders (s : wstate) : Z := Z.of_nat (length (filter holding (ws_callers s))).
+Definition conserved (s : wstate) : Prop := ws_busy s = holders s.
+
+Lemma set_caller_holders l i c old : nth_error l i = Some old ->
+  Z.of_nat (length (filter holding (set_caller l i c))) =
+  Z.of_nat (length (filter holding l)) - (if holding old then 1 else 0) + (if holding c then 1 else 0).
+Proof.
+  revert i. induction l as [|x r IH]; intros [|i] H; cbn in H; try discriminate.
+  - inversion H; subst. unfold set_caller. cbn. destruct (holding old), (holding c); cbn [length]; lia.
+  - specialize (IH i H). unfold set_caller in *. cbn [firstn skipn app filter]. destruct (holding x); cbn [length]; lia.
+Qed.
+Lemma blocked_not_holding c : blocked c = true -> holding c = false.
+Proof. unfold blocked, holding. intros H. apply Z.eqb_eq in H. rewrite H. reflexivity. Qed.
+
+Lemma grant_conserved s i : conserved s -> conserved (grant s i).
+Proof.
+  unfold conserved, holders, grant. intros H. destruct (nth_error _ i) as [c|] eqn:E; [|exact H]. destruct (blocked c) eqn:B; [|exact H].
+  cbn [ws_busy ws_callers with_callers]. rewrite (set_caller_holders _ _ _ c E), (blocked_not_holding c B). cbn. lia.
+Qed.
+Lemma refuse_conserved s i : conserved s -> conserved (refuse s i).
+Proof.
+  unfold conserved, holders, refuse. intros H. destruct (nth_error _ i) as [c|] eqn:E; [|exact H]. destruct (blocked c) eqn:B; [|exact H].
+  cbn [ws_busy ws_callers with_callers]. rewrite (set_caller_holders _ _ _ c E), (blocked_not_holding c B). cbn. lia.
+Qed.
+Lemma attempt_all_conserved ids : forall s, conserved s -> conserved (attempt_all s ids).
+Proof. induction ids as [|i r IH]; intros s H; cbn; [exact H|]. destruct (has_room s); [|exact H]. apply IH. now apply grant_conserved. Qed.
+Lemma holders_app l c : Z.of_nat (length (filter holding (l ++ [c]))) = Z.of_nat (length (filter holding l)) + (if holding c then 1 else 0).
+Proof. rewrite filter_app, app_length. cbn. destruct (holding c); cbn; lia. Qed.
+Lemma rearm_fold_holders now to ids : forall l,
+  Z.of_nat (length (filter holding (fold_left (fun l i => match nth_error l i with
+                                 | Some c => if blocked c then set_caller l i (mk_caller 0 (c_t c) (now + to) (c_cancel c)) else l
+                                 | None => l end) ids l))) = Z.of_nat (length (filter holding l)).
+Proof.
+  induction ids as [|i r IH]; intros l; cbn [fold_left]; [reflexivity|]. rewrite IH.
+  destruct (nth_error l i) as [c|] eqn:E; [|reflexivity]. destruct (blocked c) eqn:B; [|reflexivity].
+  rewrite (set_caller_holders _ _ _ c E), (blocked_not_holding c B). unfold holding. cbn. lia.
+Qed.
+Lemma rearm_conserved s ids : conserved s -> conserved (rearm s ids).
+Proof.
+  unfold rearm. intros H. destruct (w_kind _); try exact H. destruct (_ <? _); [|exact H].
+  unfold conserved, holders in *. cbn [ws_busy ws_callers with_callers]. rewrite rearm_fold_holders. exact H.
+Qed.
+Lemma fold_refuse_conserved ids : forall s, conserved s -> conserved (fold_left refuse ids s).
+Proof. induction ids as [|i r IH]; intros s H; cbn; [exact H|]. apply IH. now apply refuse_conserved. Qed.
+
+Theorem arrive_conserved s c : conserved s -> conserved (arrive s c).
+Proof.
+  intros H. unfold arrive.
+  assert (A: forall st due, st <> 1 -> conserved (with_callers s (ws_busy s) (ws_now s) (ws_callers s ++ [mk_caller st (ws_now s) due c]))).
+  { intros st due Hs. unfold conserved, holders in *. cbn [ws_busy ws_callers with_callers]. rewrite holders_app, H. unfold holding. cbn [c_st mk_caller].
+    destruct (Z.eqb_spec st 1); [contradiction|lia]. }
+  destruct (w_kind (ws_cfg s)).
+  - destruct c; [apply A; lia|]. destruct (has_room s); [apply grant_conserved|]; apply A; lia.
+  - destruct c; [apply A; lia|]. destruct (_ <? _); [apply A; lia|]. destruct (has_room s); [apply grant_conserved; apply A; lia|]. destruct (_ <=? _); apply A; lia.
+  - destruct (has_room s); [apply grant_conserved; apply A; lia|]. destruct (_ <=? _); [apply A; lia|]. destruct (_ && _); apply A; lia.
+Qed.
+Theorem release_conserved s i pref : conserved s -> conserved (release s i pref).
+Proof.
+  intros H. unfold release. destruct (nth_error _ i) as [c|] eqn:E; [|exact H]. destruct (c_st c =? 1) eqn:St; [|exact H].
+  set (s1 := with_callers s (ws_busy s - 1) (ws_now s) _).
+  assert (H1: conserved s1).
+  { unfold conserved, holders in *. cbn [s1 ws_busy ws_callers with_callers]. rewrite (set_caller_holders _ _ _ c E). unfold holding at 2 3. rewrite St. cbn. lia. }
+  destruct (w_kind (ws_cfg s)).
+  - apply rearm_conserved, attempt_all_conserved, H1.
+  - apply rearm_conserved, attempt_all_conserved, H1.
+  - destruct (peek s1); [|exact H1]. destruct (has_room s1); [now apply grant_conserved|exact H1].
+Qed.
+Theorem cancel_conserved s i : conserved s -> conserved (cancel s i).
+Proof.
+  intros H. unfold cancel. destruct (nth_error _ i) as [c|] eqn:E; [|exact H].
+  set (s1 := with_callers s (ws_busy s) (ws_now s) _).
+  assert (H1: conserved s1).
+  { unfold conserved, holders in *. cbn [s1 ws_busy ws_callers with_callers]. rewrite (set_caller_holders _ _ _ c E).
+    change (holding (mk_caller (c_st c) (c_t c) (c_due c) true)) with (holding c). destruct (holding c); lia. }
+  destruct (blocked c); [|exact H1]. destruct (w_kind (ws_cfg s)); try (now apply refuse_conserved). destruct (w_evict _); [now apply refuse_conserved|exact H1].
+Qed.
+Lemma fire_conserved s t pref : conserved s -> conserved (fire s t pref).
+Proof.
+  intros H. unfold fire. set (s0 := with_callers s (ws_busy s) t (ws_callers s)). assert (H0: conserved s0) by exact H.
+  destruct (w_kind (ws_cfg s)).
+  - apply rearm_conserved, attempt_all_conserved, H0.
+  - generalize (attempt_all_conserved (order_pref (due_ids (ws_callers s0) 0 t) pref) s0 H0).
+    generalize (attempt_all s0 (order_pref (due_ids (ws_callers s0) 0 t) pref)). generalize (due_ids (ws_callers s0) 0 t).
+    induction l as [|k r IH]; intros s2 H2; cbn; [exact H2|]. apply IH.
+    destruct (nth_error _ k) as [c|]; [|exact H2]. destruct (blocked c); [now apply refuse_conserved|exact H2].
+  - now apply fold_refuse_conserved.
+Qed.
+Theorem advance_conserved fuel : forall s target pref, conserved s -> conserved (advance fuel s target pref).
+Proof.
+  induction fuel as [|f IH]; intros s target pref H; cbn; [exact H|]. destruct (next_due s target); [|exact H]. apply IH. now apply fire_conserved.
+Qed.
+(* a caller that returned refused holds nothing: its status is "refused", which is not counted among the holders *)
